@@ -1331,6 +1331,146 @@ theorem hObtain_spec (s : HState κ ι π ν) (v : State κ GroupV CompV ι (Msg
         have h2 : s.next ≤ q.2 := e ▸ r5
         exact absurd h1 (Nat.not_lt.2 h2)
 
+/-- every kept object other than `o` reads the same after `wire()` on `o` -/
+theorem hWire_objs (s : HState κ ι π ν) (v : State κ GroupV CompV ι (MsgV π) ν) (o : Ref) (hs : Sep s) (hv : Sim s v)
+    (ho : IsMsg s.heap o) (key' : ObjKey ι) (hne : ∀ r, s.objs.lookup key' = some r → r ≠ o) :
+    v.objs.lookup key' = (abs (hWire H s o).1).objs.lookup key' := by
+  obtain ⟨_, _, _, hd⟩ := hWire_sep_sim H s v o hs hv ho
+  obtain ⟨_, _, _, hob, _⟩ := hWire_frame H s o ho
+  rw [hv.objs key', abs_objs_lookup, abs_objs_lookup, hob]
+  cases hl : s.objs.lookup key' with
+  | none => rfl
+  | some r => simp only [Option.map_some]; rw [hd r (hne r hl)]
+
+theorem wire_keep_spec (s : HState κ ι π ν) (v : State κ GroupV CompV ι (MsgV π) ν) (key : ObjKey ι) (o : Ref)
+    (hs : Sep s) (hv : Sim s v) (ho : IsMsg s.heap o) (hfo : ∀ y : Nat, y ∈ footOf s.heap o → y < s.next)
+    (hko : ∀ q ∈ s.objs, q.2 = o → q.1 = key) :
+    Sep (hKeep (hWire H s o).1 key o) ∧
+    Sim (hKeep (hWire H s o).1 key o) (keep v key ((derefMsg s.heap o).wire H.wireFn).1) := by
+  obtain ⟨sep', et, ec, hd⟩ := hWire_sep_sim H s v o hs hv ho
+  obtain ⟨hn, _, _, hob, _, _, hf, _, hdo, hm⟩ := hWire_frame H s o ho
+  refine keep_spec (hWire H s o).1 v key o _ sep' (hv.tables.trans et.symm)
+    (fun c => (hv.compiled c).trans (congrFun ec c).symm) ?_ hm ?_ ?_ hdo
+  · intro key' hk
+    refine hWire_objs H s v o hs hv ho key' ?_
+    intro r hl e
+    have this : key' = key := hko (key', r) (lookup_mem' hl) e
+    rw [this] at hk
+    exact Bool.noConfusion ((BEq.rfl (a := key)).symm.trans hk)
+  · intro y hy
+    rw [hf o] at hy
+    rw [hn]; exact hfo y hy
+  · rw [hob]; exact hko
+
+/-- MAIN LEMMA: one operation of the code as it is (no extra writes) on the heap = the same operation
+    of the value model, and the ownership invariant is kept -/
+theorem hCore_spec (s : HState κ ι π ν) (v : State κ GroupV CompV ι (MsgV π) ν) (op : Op ι φ)
+    (hs : Sep s) (hv : Sim s v) :
+    Sep (hCore H s op).1 ∧ Sim (hCore H s op).1 (step H.toParams v op).1 ∧
+    (hCore H s op).2 = (step H.toParams v op).2 := by
+  cases op with
+  | invalidate =>
+    refine ⟨?_, ⟨rfl, hv.compiled, hv.objs⟩, rfl⟩
+    refine Sep.of hs rfl rfl ?_ hs.keyOfRoot hs.msgRoot
+    intro r hr
+    rcases hr with ⟨p, hp, _⟩ | h2
+    · exact absurd hp (List.not_mem_nil)
+    · exact Or.inl (Or.inr h2)
+  | proc c dir m w =>
+    obtain ⟨sep1, sim1, keep1, objs1, res1⟩ := hFetch_spec H s v c dir m hs hv
+    unfold hCore step
+    simp only [show H.toParams.wireFn = H.wireFn from rfl, show H.toParams.view = H.view from rfl]
+    cases hr : (hFetch H s c dir m).2 with
+    | error e =>
+      rw [hr] at res1
+      simp only at res1
+      rw [res1]
+      exact ⟨sep1, sim1, rfl⟩
+    | ok o =>
+      rw [hr] at res1
+      simp only at res1
+      obtain ⟨r1, r2, r3, r4, r5, r6⟩ := res1
+      rw [r1]
+      simp only
+      have hko : ∀ q ∈ (hFetch H s c dir m).1.objs, q.2 = o → q.1 = (c, dir, m) := by
+        intro q hq e
+        rw [objs1] at hq
+        have h1 : q.2 < s.next := hs.closed q.2 (Or.inr (Or.inr ⟨q, hq, rfl⟩)) q.2 foot_self
+        have h2 : s.next ≤ q.2 := e ▸ r5
+        exact absurd h1 (Nat.not_lt.2 h2)
+      have hobj : ({ data := (derefMsg (hFetch H s c dir m).1.heap o).data, nodes := [], isWired := false } : Cache.Obj (MsgV π) ν) =
+          derefMsg (hFetch H s c dir m).1.heap o := by
+        rw [← r2, ← r3]
+      rw [hobj]
+      cases w with
+      | false =>
+        simp only [Bool.false_eq_true, if_false]
+        obtain ⟨a, b⟩ := keep_spec (hFetch H s c dir m).1 _ (c, dir, m) o _ sep1 sim1.tables sim1.compiled
+          (fun key' _ => sim1.objs key') r6 r4 hko rfl
+        exact ⟨a, b, (by first | rfl | trivial)⟩
+      | true =>
+        simp only [if_true]
+        obtain ⟨_, _, _, hob, _, _, _, hw2, _, _⟩ := hWire_frame H (hFetch H s c dir m).1 o r6
+        rw [hw2]
+        cases hwr : ((derefMsg (hFetch H s c dir m).1.heap o).wire H.wireFn).2 with
+        | error e =>
+          simp only
+          obtain ⟨sep', et, ec, _⟩ := hWire_sep_sim H (hFetch H s c dir m).1 _ o sep1 sim1 r6
+          refine ⟨sep', ⟨sim1.tables.trans et.symm, fun c' => (sim1.compiled c').trans (congrFun ec c').symm, ?_⟩, (by first | rfl | trivial)⟩
+          intro key'
+          refine hWire_objs H _ _ o sep1 sim1 r6 key' ?_
+          intro r hl e'
+          have := hko (key', r) (lookup_mem' hl) e'
+          have h1 : r < s.next := hs.closed r (Or.inr (Or.inr ⟨(key', r), objs1 ▸ lookup_mem' hl, rfl⟩)) r foot_self
+          have h2 : s.next ≤ r := e' ▸ r5
+          exact absurd h1 (Nat.not_lt.2 h2)
+        | ok u =>
+          simp only
+          obtain ⟨a, b⟩ := wire_keep_spec H (hFetch H s c dir m).1 _ (c, dir, m) o sep1 sim1 r6 r4 hko
+          exact ⟨a, b, (by first | rfl | trivial)⟩
+  | wire c dir m =>
+    obtain ⟨sep1, sim1, res1⟩ := hObtain_spec H s v c dir m hs hv
+    unfold hCore step
+    simp only [show H.toParams.wireFn = H.wireFn from rfl, show H.toParams.view = H.view from rfl]
+    cases hr : (hObtain H s c dir m).2 with
+    | error e =>
+      rw [hr] at res1
+      simp only at res1
+      rw [res1]
+      exact ⟨sep1, sim1, rfl⟩
+    | ok o =>
+      rw [hr] at res1
+      simp only at res1
+      obtain ⟨r1, r2, r3, r4⟩ := res1
+      rw [r1]
+      simp only
+      obtain ⟨a, b⟩ := wire_keep_spec H (hObtain H s c dir m).1 _ (c, dir, m) o sep1 sim1 r2 r3 r4
+      obtain ⟨_, _, _, _, _, _, _, hw2, _, _⟩ := hWire_frame H (hObtain H s c dir m).1 o r2
+      refine ⟨a, b, ?_⟩
+      rw [hw2]
+      cases (Obj.wire H.wireFn (derefMsg (hObtain H s c dir m).1.heap o)).2 <;> rfl
+  | view c dir m q =>
+    obtain ⟨sep1, sim1, res1⟩ := hObtain_spec H s v c dir m hs hv
+    unfold hCore step
+    simp only [show H.toParams.wireFn = H.wireFn from rfl, show H.toParams.view = H.view from rfl]
+    cases hr : (hObtain H s c dir m).2 with
+    | error e =>
+      rw [hr] at res1
+      simp only at res1
+      rw [res1]
+      exact ⟨sep1, sim1, rfl⟩
+    | ok o =>
+      rw [hr] at res1
+      simp only at res1
+      obtain ⟨r1, r2, r3, r4⟩ := res1
+      rw [r1]
+      simp only
+      obtain ⟨a, b⟩ := wire_keep_spec H (hObtain H s c dir m).1 _ (c, dir, m) o sep1 sim1 r2 r3 r4
+      obtain ⟨_, _, _, _, _, _, _, hw2, hw3, _⟩ := hWire_frame H (hObtain H s c dir m).1 o r2
+      refine ⟨a, b, ?_⟩
+      rw [hw2, hw3]
+      rfl
+
 end Proc
 
 end Bufr.Heap
